@@ -224,6 +224,8 @@ def gen_pair(rng, ctx, lo_len=0, hi_len=30, small=False, wide_ok=True, need_nega
     A1 = a1 if K1 == k1 else G.alphabet(K1, kind1, 2)
     A2 = a2 if K2 == k2 else G.alphabet(K2, kind2, 3)
     mdtype = str(rng.choice(["int64", "int32", "int16"]))
+    if mkind == "huge" and mdtype == "int16":
+        mdtype = "int32"          # the scores do not fit 16 bits
     return dict(k=(k1, k2), K=(K1, K2), akind=(kind1, kind2), same_alph=same_alph, a=(a1, a2), A=(A1, A2),
                 matrix=matrix, mkind=mkind, mdtype=mdtype, c1=c1, c2=c2, gp=gp)
 
